@@ -174,7 +174,32 @@ fn mk_redirected_flow(n: u64) -> Flow<(), SendBody> {
     }
 }
 
+/// The declared length behind the (n, despite) encoding of the graph variants.
+fn model_len(n: u64, despite: bool) -> u64 {
+    if despite && n >= 2000 {
+        n - 2000
+    } else if despite && n >= 1000 {
+        n - 1000
+    } else {
+        n
+    }
+}
+
+fn variant_label(n: u64, despite: bool) -> &'static str {
+    match (despite, n) {
+        (false, _) => "",
+        (true, 2000..) => " (POST with its own Host header; N = n - 2000)",
+        (true, 1000..) => " (redirected flow, GET + send_body_despite_method, own Content-Length; N = n - 1000)",
+        _ => " (GET + send_body_despite_method)",
+    }
+}
+
 fn mk_flow(n: u64, despite: bool) -> Flow<(), SendBody> {
+    if despite && n >= 2000 {
+        // encoding: despite + n >= 2000 means "POST carrying its own Host and Content-Length n - 2000"
+        // (nothing left for the request analysis to amend)
+        return super::sendbody::send_body_flow_cfg(&super::sendbody::cfg_own_host(("content-length", &(n - 2000).to_string())));
+    }
     if despite && n >= 1000 {
         // encoding: despite + n >= 1000 means "redirected flow with its own Content-Length n - 1000"
         return mk_redirected_flow(n - 1000);
@@ -356,12 +381,14 @@ pub fn run(tier: Tier) -> Report {
     graph_jobs.extend((0..=3u64).map(|n| (n, true)));
     // ... and on a flow obtained by following a redirect, with a length of its own (the original declared 10)
     graph_jobs.extend([1004u64, 1000, 1012].into_iter().map(|n| (n, true)));
+    // ... and on a POST that carries its own Host header next to the Content-Length
+    graph_jobs.extend([2000u64, 2003, 2006].into_iter().map(|n| (n, true)));
     let graphs: Vec<Report> = graph_jobs
         .into_par_iter()
         .map(|(n, despite)| {
             let mut rep = Report::new();
             let _g = crate::engine::watch(|| format!("C04 graph N={} despite={}", n, despite));
-            let model_n = if despite && n >= 1000 { n - 1000 } else { n };
+            let model_n = model_len(n, despite);
             let fresh = || St { f: mk_flow(n, despite), n: model_n, left: model_n, signalled: false, max_arg: model_n as usize + 2 };
             let ex = explore(fresh(), &Limits { max_states: 100_000, keep_state_traces: 6, ..Default::default() });
             rep.states += ex.states;
@@ -375,7 +402,7 @@ pub fn run(tier: Tier) -> Report {
                 rep.violation(Violation {
                     key: f.key.clone(),
                     ord: n * 100 + f.trace.len() as u64,
-                    what: format!("N={}{}: {} [ops {:?}]", n, if despite { " (GET + send_body_despite_method)" } else { "" }, f.what, f.trace),
+                    what: format!("N={}{}: {} [ops {:?}]", n, variant_label(n, despite), f.what, f.trace),
                     replay: json!({"kind": "ops", "n": n.to_string(), "despite": despite, "ops": ops_json(&f.trace)}),
                 });
             }
@@ -464,7 +491,7 @@ pub fn replay(v: &Value) -> Result<Option<String>, String> {
         "ops" => {
             let despite = v["despite"].as_bool().unwrap_or(false);
             let mut f = mk_flow(n, despite);
-            let n = if despite && n >= 1000 { n - 1000 } else { n };
+            let n = model_len(n, despite);
             let mut left = n;
             let mut sig = false;
             let maxlen = 70_010usize;
